@@ -6,11 +6,6 @@ and the soundness + completeness of the executable one-pass checker `wfBinTape`.
 namespace Jomini.BinTape
 open Jomini
 
-/-- neither a container start nor an `End` -/
-def BTok.isPlain : BTok → Bool
-  | .array _ | .object _ | .end_ _ => false
-  | _ => true
-
 /-- `Items s seg`: the token list `seg`, sitting at tape indices `s, s+1, …`, is a sequence of
 complete items: a plain token, or a container — a start token at index `i ≠ 0` whose payload is
 the index `e` of its own `End`, a sequence of complete items, and at index `e` the token `End i`.
